@@ -57,6 +57,8 @@ def generate(seed, mode="c09", opts=None):
         # dependency, refused - and without consequences for any other call
         for _ in range(ch.rint(1, 2, "ncyc")):
             ops.insert(ch.draw(len(ops) + 1, "cycat"), ["call_cycle", {"a": ch.pick(INT_POOL[:2], "cyca"), "b": "x"}])
+        if ch.chance(1, 2):
+            ops.insert(ch.draw(len(ops) + 1, "tryat"), ["call_try", {"a": ch.pick(INT_POOL[:2], "trya"), "b": "x"}])
     calls = [i for i, o in enumerate(ops) if o[0] == "call"]
     ops.append(["export_all"])
     order = ch.shuffle(list(range(len(ops))), "reorder")
@@ -148,6 +150,39 @@ class Env:
 
         def cyc_b(p):
             return env_self.cyc_a(p)
+
+        # a generator that tries optional sub-generators and skips those that fail; both options call
+        # it back with the same parameters (refused as circular), so its body must still run once
+        self.try_runs = {}
+
+        def try_top(p):
+            self.try_runs[pkey(p)] = self.try_runs.get(pkey(p), 0) + 1
+            m = h.Module()
+            m.p = h.Port()
+            for k_, option in enumerate((env_self.try_l, env_self.try_r)):
+                try:
+                    sub = option(p)
+                except RuntimeError:
+                    continue
+                m.add(sub(p=m.p), name=f"opt{k_}")
+            return m
+
+        def try_l(p):
+            m = h.Module()
+            m.p = h.Port()
+            m.t = env_self.try_top(p)(p=m.p)
+            return m
+
+        def try_r(p):
+            m = h.Module()
+            m.p = h.Port()
+            m.t = env_self.try_top(p)(p=m.p)
+            return m
+
+        for fn, nm in ((try_top, "TryTop"), (try_l, "TryL"), (try_r, "TryR")):
+            fn.__name__ = fn.__qualname__ = nm
+            fn.__annotations__ = {"p": P1, "return": h.Module}
+        self.try_top, self.try_l, self.try_r = h.generator(try_top), h.generator(try_l), h.generator(try_r)
 
         env_self = self
         for fn, nm in ((cyc_a, "CycA"), (cyc_b, "CycB")):
@@ -324,6 +359,21 @@ def exec_calls(arg):
         op = ops[i]
         if op[0] == "junk":
             keep.append(bytearray(op[1]))
+            continue
+        if op[0] == "call_try":
+            p_ = env.P["P1"](**op[1])
+            try:
+                t1 = env.try_top(p_)
+                l1 = env.try_l(p_)
+                t2 = env.try_top(p_)
+            except Exception as e:  # noqa
+                probe("try_generator_refused:" + interp.norm_exc(e)[0])
+                continue
+            probe("try_generator_called")
+            if env.try_runs.get(pkey(p_), 0) != 1:
+                fail("body-ran-twice", f"call #{i}: the body of a generator that catches the refusal of its circular sub-generators ran {env.try_runs.get(pkey(p_))} times for one set of parameters")
+            elif t1 is not t2 or l1.t.of is not t1:
+                fail("not-memoised", f"call #{i}: equal parameters returned different Modules for a generator that catches the refusal of its circular sub-generators")
             continue
         if op[0] == "call_cycle":
             try:
